@@ -269,18 +269,23 @@ run_from_new!(run_from_new_5, 5, 9);
 pub const OSCN: usize = 6;
 
 // `kani::any::<[T; 32]>()` is a 32-iteration loop; arrays are assembled from 8-element
-// pieces so that the harness-wide unwind bound can stay small.
+// pieces so that the harness-wide unwind bound can stay small.  `$sym` says how many
+// leading entries are symbolic: entries the shape never reads (beyond the completed values
+// plus the one being written) are fixed filler, which keeps the SAT instance small; the
+// limit shapes (31/32 values) ask for all of them.
 macro_rules! any_array {
     ($name:ident, $t:ty, $n:expr, $zero:expr) => {
-        fn $name() -> [$t; $n] {
+        fn $name(sym: usize) -> [$t; $n] {
             let mut out = [$zero; $n];
             let mut b = 0;
             while b * 8 < $n {
-                let piece: [$t; 8] = kani::any();
-                let mut j = 0;
-                while j < 8 && b * 8 + j < $n {
-                    out[b * 8 + j] = piece[j];
-                    j += 1;
+                if b * 8 < sym {
+                    let piece: [$t; 8] = kani::any();
+                    let mut j = 0;
+                    while j < 8 && b * 8 + j < $n {
+                        out[b * 8 + j] = piece[j];
+                        j += 1;
+                    }
                 }
                 b += 1;
             }
@@ -302,8 +307,8 @@ pub fn any_model(st: St, n: usize, n_cuts: usize) -> Vt<OSCN> {
     m.inter = kani::any();
     m.n_inter = kani::any();
     kani::assume(m.n_inter <= vt::MAX_INTERMEDIATES);
-    m.vals = any32_u16();
-    m.sub = any32_bool();
+    m.vals = any32_u16(n + 2);
+    m.sub = any32_bool(n + 2);
     m.sub[0] = false;
     m.n = n;
     m.cur = kani::any();
@@ -337,7 +342,7 @@ pub fn any_model(st: St, n: usize, n_cuts: usize) -> Vt<OSCN> {
 /// are symbolic.
 pub fn concretize(m: &Vt<OSCN>, extra_osc: usize) -> Parser {
     // params
-    let mut subparams: [u8; 32] = any32_u8();
+    let mut subparams: [u8; 32] = any32_u8(m.n + 2);
     let mut cnt = [1u8; 33];
     let mut i = m.n;
     while i > 0 {
@@ -377,7 +382,7 @@ pub fn concretize(m: &Vt<OSCN>, extra_osc: usize) -> Parser {
         raw[raw_len + 1] = kani::any();
         raw_len += extra_osc;
     }
-    let mut osc_params: [(usize, usize); 16] = any16_pairs();
+    let mut osc_params: [(usize, usize); 16] = any16_pairs(m.n_cuts + 2);
     let mut prev = 0usize;
     let mut i = 0;
     while i < m.n_cuts {
